@@ -14,6 +14,10 @@ def harnesses(tier):
                   claims='ValueNode::SetInt/SetDbl: max-among-non-zero conflict rule, order independent, storage grows to the declared size only'),
           Harness('h_copy', 'vals', unwind=6, timeout=600, mem_gb=16, tv_cases=0, assumptions=A[:1], flags=['--object-bits', '10'], bounds='two nodes of size 1..3, every valid pair of ranges, all contents symbolic',
                   claims='Copy<int>/Copy<double> (the kernel of CopyLink): destination range := source range, nothing else changes')]
+    for (sz, al) in [(a, b) for a in range(0, 4) for b in range(0, a + 1)]:
+        h = Harness('h_cleanup', 'vals', unwind=6, timeout=300, mem_gb=16, tv_cases=0, defines=['CSZ=%d' % sz, 'CAL=%d' % al], assumptions=A[:1], flags=['--object-bits', '10'], bounds='node of declared size %d with arbitrary previous contents in %d allocated slots' % (sz, al),
+                    claims='ValueNode::CleanUpAndRealloc (run on every node before each presolve/postsolve transfer): all declared int and double slots are zero afterwards, whatever an earlier transfer left')
+        h.label = 'h_cleanup[size%d,alloc%d]' % (sz, al); hs.append(h)
     for what, nm in ((0, 'postsolve-basis'), (1, 'postsolve-iis'), (2, 'presolve-basis')):
         for (l, u, c) in ((1, 5, 2), (-3, 4, -1)) if tier == 'quick' else ((1, 5, 2), (-3, 4, -1), (0, 1, 1), (-7, -2, 3)):
             h = Harness('h_range_slack', 'vals', unwind=8, timeout=240 if tier == 'quick' else 1200, mem_gb=24, tv_cases=0, defines=['WHAT=%d' % what, 'RLB=(%d)' % l, 'RUB=(%d)' % u, 'RC0=(%d)' % c], assumptions=A[1:], flags=['--object-bits', '10'],
